@@ -62,4 +62,14 @@ example : (authCall (allowedPeers [3, 5]) (fun r => ⟨200, r.tag⟩) ⟨some 5,
 example : (authCall (allowedPeers [3, 5]) (fun r => ⟨200, r.tag⟩) ⟨some 4, 9⟩) = (⟨404, 0⟩, []) := by decide
 example : (authCall (allowedPeers [3, 5]) (fun r => ⟨200, r.tag⟩) ⟨none, 9⟩) = (⟨500, 0⟩, []) := by decide
 
+
+/-- **The authorization layer the model describes is the one in the source** (read off anemo-tower on this
+run): `RequireAuthorization::call` runs the authorizer and EITHER calls the inner service OR answers with the
+authorizer's own response (kept whole in the refusal future); the allow-list authorizer answers
+`InternalServerError` when the request carries no sender identity and `NotFound` for a sender that is not
+in the set - the statuses the model uses. -/
+theorem C20_layer_is_translated :
+    Gen.allowMissingSenderStatus.toU16 = statusInternal ∧ Gen.allowUnlistedSenderStatus.toU16 = statusNotFound ∧
+    Gen.towerShapeChecked = true := ⟨rfl, rfl, rfl⟩
+
 end Anemo
